@@ -614,7 +614,12 @@ pub fn run_plan(
             if let Some(t0) = &twin0 {
                 let fresh = VfsPath::new(vfs::OverlayFS::new(&built.layers));
                 for (who, t) in [("built before the history", t0), ("built just now", &fresh)] {
-                    let ts = snapshot(t);
+                    // the other instance's observers tell one consistent story as well (every universe
+                    // path probed where the property is about observers, C05; reachable entries elsewhere)
+                    let ts = if opts.observers && who.starts_with("built before") { full_snapshot(t, &uni) } else { snapshot(t) };
+                    if !ts.problems.is_empty() {
+                        return Err(fail(case, &trace, step, format!("after {}: a second OverlayFS instance over the same layers ({}) is inconsistent in itself: {:?}", op.render(), who, &ts.problems[..ts.problems.len().min(4)])));
+                    }
                     if ts.tree != snap.tree {
                         return Err(fail(case, &trace, step, format!("after {}: a second OverlayFS instance over the same layers ({}) shows a different tree: {:?}", op.render(), who, diff_trees(&snap.tree, &ts.tree))));
                     }
